@@ -46,7 +46,7 @@ class C18(Check):
                    'running: struct/member agreement is read under the module\'s access lock)',
                    'closest allowed value: ties may go either way']
     PROBES = ('c18.struct-op', 'c18.floatenum-op', 'c18.limit-op', 'c18.inverted-limits', 'c18.control-op',
-              'c18.driver-op', 'c18.wire-op', 'c18.takeover')
+              'c18.driver-op', 'c18.wire-op', 'c18.takeover', 'c18.concurrent-driver-assignment', 'fault.hw-read', 'fault.hw-write')
 
     def gen_case(self, rng, tier):
         members = rng.sample(['a', 'b', 'c'], rng.choice([2, 3]))
@@ -83,6 +83,10 @@ class C18(Check):
                 op = {'group': 'control', 'kind': rng.choice(['ctl', 'ctl', 'out']), 'c': rng.randrange(shape['nctl']),
                       'v': round(rng.random() * 100, 1)}
             op['who'] = who
+            if op['group'] in ('struct', 'fe') and rng.random() < 0.3:
+                # at the same time a driver thread publishes a change of its own by assignment
+                op['also'] = rng.choice([{'kind': 'idx', 'i': rng.randrange(len(labels))},
+                                         {'kind': 'member', 'm': rng.choice(members), 'mv': round(rng.random() * 100, 2)}])
             ops.append(op)
         return {'shape': shape, 'ops': ops}
 
@@ -210,8 +214,28 @@ class C18(Check):
             exc = None
             g, k, who = op['group'], op['kind'], op['who']
             sim.count('c18.wire-op' if who == 'wire' else 'c18.driver-op')
-            if op.get('fail'):
+            if op.get('fail') and not (op.get('also') and ((g == 'fe' and k == 'index') or (g == 'struct' and shape['struct_rw']))):
                 hw['fail'] = ('read' if k.startswith('read') else 'write', op['fail'])
+            side = None
+            # concurrency only where frappy promises consistency by construction: propagation between index and
+            # float and between struct and members runs inside the update lock of the module; the generated member
+            # access of a struct without combined methods is guarded by the access lock only, which a thread
+            # publishing by assignment does not take
+            also_ok = (g == 'fe' and k == 'index') or (g == 'struct' and shape['struct_rw'])
+            if op.get('also') and also_ok and not op.get('fail'):
+                def concurrent(also=op['also']):
+                    sim.yield_point()
+                    try:
+                        if also['kind'] == 'idx':
+                            mod.fe_idx = also['i']
+                        else:
+                            hw['st'][also['m']] = also['mv']
+                            setattr(mod, f'st_{also["m"]}', also['mv'])
+                    except Exception:   # noqa
+                        pass
+                sim.count('c18.concurrent-driver-assignment')
+                side = threading.Thread(target=concurrent, name='driver-side')
+                side.start()
             try:
                 if g == 'struct':
                     sim.count('c18.struct-op')
@@ -292,9 +316,12 @@ class C18(Check):
                             out.write_target(op['v'])
             except Exception as e:   # noqa
                 exc = f'{type(e).__name__}: {e}'[:200]
+            if side is not None:
+                side.join()
             time.sleep(0.05)
             hw['fail'] = None
             steps.append({'op': op, 'before': before, 'after': snapshot(), 'reply': reply, 'exc': exc,
+                          'also_done': side is not None, 'hw_st': dict(hw['st']),
                           'xlog': list(hw.get('xlog', ()))})
             hw['xlog'] = []
         cl.close()
@@ -326,31 +353,37 @@ class C18(Check):
                                          f'(op {op}, reply {s["reply"]}, exc {s["exc"]})'))
                     return res
             # a member / struct write leaves the other members alone
-            if op['group'] == 'struct' and accepted and op['kind'] in ('struct', 'member'):
+            if op['group'] == 'struct' and accepted and op['kind'] in ('struct', 'member') and not s.get('also_done'):
                 want = dict(b['st'])
                 if op['kind'] == 'struct':
                     want.update(op['v'])
                 else:
                     want[op['m']] = op['mv']
-                if any(abs(want[m] - a['st'].get(m, float('nan'))) > 1e-9 for m in shape['members']):
+                written = set(op['v']) if op['kind'] == 'struct' else {op['m']}
+                # (a member not written may also have been refreshed from the hardware by the poller meanwhile)
+                if any(abs(want[m] - a['st'].get(m, float('nan'))) > 1e-9 and
+                       (m in written or abs(s['hw_st'][m] - a['st'].get(m, float('nan'))) > 1e-9)
+                       for m in shape['members']):
                     res.append(Violation('C18.struct-write-result', f'{"combined" if shape["struct_rw"] else "members"}|{op["kind"]}',
                                          f'{what}: struct was {b["st"]}, operation {op}, expected {want}, holds {a["st"]}'))
                     return res
             # float value belongs to the current index (judged once the pair has been touched)
-            touched = any(st['op']['group'] == 'fe' and st['op']['kind'] in ('float', 'index') and st['exc'] is None and
-                          not (st['reply'] or '').startswith('error_') for st in ctx['steps'][:k + 1])
+            touched = any((st['op']['group'] == 'fe' and st['op']['kind'] in ('float', 'index') and st['exc'] is None and
+                           not (st['reply'] or '').startswith('error_')) or
+                          (st.get('also_done') and st['op']['also']['kind'] == 'idx')
+                          for st in ctx['steps'][:k + 1])
             if touched and abs(a['fe'] - vdict[a['idx']]) > 1e-12 * max(1, abs(a['fe'])):
                 res.append(Violation('C18.float-index-mismatch', op['kind'],
                                      f'{what}: fe = {a["fe"]} but fe_idx = {a["idx"]} -> {vdict[a["idx"]]}'))
                 return res
-            if op['group'] == 'fe' and op['kind'] == 'float' and accepted:
+            if op['group'] == 'fe' and op['kind'] == 'float' and accepted and not s.get('also_done'):
                 best = min(abs(v - op['v']) for v in vdict.values())
                 if abs(abs(vdict[a['idx']] - op['v']) - best) > 1e-12 * max(1.0, best):
                     res.append(Violation('C18.not-closest-value', 'write',
                                          f'{what}: wrote {op["v"]}, selected {vdict[a["idx"]]} (index {a["idx"]}), allowed '
                                          f'values {sorted(vdict.values())}'))
                     return res
-            if op['group'] == 'fe' and op['kind'] == 'index' and accepted and a['idx'] != op['i']:
+            if op['group'] == 'fe' and op['kind'] == 'index' and accepted and a['idx'] != op['i'] and not s.get('also_done'):
                 res.append(Violation('C18.index-write-lost', 'index', f'{what}: wrote index {op["i"]}, holds {a["idx"]}'))
                 return res
             # limits
